@@ -20,6 +20,19 @@ BOGEY_BAILLY = {
 LSRK_RTOL = Fraction(2, 10 ** 9)
 
 
+def problem_kind(rule, text):
+    """which clause a problem found while extracting the tableau is about: 'time' (stage / final
+    times), 'local' (which reduction of a local-time-step array multiplies the residual), 'stale'
+    (right-hand-side arrays kept by reference), 'update' (structure of the step itself)"""
+    if rule == "AFF-TIME":
+        return "time"
+    if "kept by reference" in text:
+        return "stale"
+    if "reduced time step" in text or "not advanced with the step argument" in text:
+        return "local"
+    return "update"
+
+
 class Tableau:
     def __init__(self):
         self.A = []      # rows (list of Fractions, length s)
